@@ -37,6 +37,9 @@ func (sp *Scope) BeginScope() {
 }
 
 func (sp *Scope) EndScope() {
+	if sp == nil {
+		return
+	}
 	sp.currentDepth--
 
 	// pop all deeper values
